@@ -389,6 +389,63 @@ prop("C11",
      note="trusts memcheck definedness tracking; digests compare every return value, output byte, active schedule image and public field",
      design_ref="DESIGN.md#c11")
 
+
+# ----------------------------------------------------------------------------- C12 (build configurations)
+def c12_matrix(tier):
+    """(name, LibCfg) list; the first entry is the baseline (shipped flags)."""
+    cfgs = []
+    simd = [("simd256", []), ("simd128", ["SKINNY_VERIF_VEC256_MATH=0"]),
+            ("nosimd", ["SKINNY_VERIF_VEC128_MATH=0", "SKINNY_VERIF_VEC256_MATH=0"]),
+            ("neutral", ["SKINNY_VERIF_VEC128_MATH=0", "SKINNY_VERIF_VEC256_MATH=0", "SKINNY_VERIF_LITTLE_ENDIAN=0"])]
+    full = []
+    for cc in ("gcc", "clang"):
+        for opt in ("-O3", "-O2", "-O1", "-O0"):
+            for w in (1, 0):
+                for ua in (1, 0):
+                    for sname, sdefs in simd:
+                        name = "%s%s-w%d-u%d-%s" % (cc, opt, 64 if w else 32, ua, sname)
+                        defs = ["SKINNY_VERIF_64BIT=%d" % w, "SKINNY_VERIF_UNALIGNED=%d" % ua] + sdefs
+                        full.append((name, LibCfg(name=name, cc=cc, opt=opt, defs=defs)))
+    if tier == "thorough":
+        return full
+    # quick: a subset that covers every value of every switch and every pair of (word, unaligned, simd/endian),
+    # with compilers and -O levels spread over it
+    pick = ["gcc-O3-w64-u1-simd256", "gcc-O3-w32-u0-simd256", "clang-O2-w32-u1-simd128", "gcc-O1-w64-u0-simd128",
+            "gcc-O0-w64-u1-nosimd", "clang-O3-w32-u0-nosimd", "gcc-O2-w32-u1-nosimd", "clang-O0-w64-u0-nosimd",
+            "gcc-O3-w64-u1-neutral", "clang-O1-w32-u0-neutral", "gcc-O0-w32-u1-neutral", "clang-O3-w64-u0-neutral",
+            "clang-O3-w64-u1-simd256", "gcc-O2-w64-u0-simd256", "clang-O0-w32-u1-simd256", "gcc-O0-w32-u0-simd128"]
+    d = dict(full)
+    return [(n, d[n]) for n in pick]
+
+def c12_units(tier):
+    from concurrent.futures import ThreadPoolExecutor
+    def libs():
+        mat = c12_matrix(tier)
+        with ThreadPoolExecutor(5) as ex:
+            sos = list(ex.map(lambda nc: skv.build_shared(nc[1]), mat))
+        return ["--libs", ",".join("%s=%s" % (n, so) for (n, _), so in zip(mat, sos))]
+    return [Unit("c12", "c12.cpp", None, cases=scale(tier, 500, 2500), shards=16, args=libs, timeout=6000)]
+
+prop("C12",
+     units=c12_units,
+     level="exploration",
+     rule=("build configurations = word arithmetic {64, 32 bit} x unaligned fast paths {on, off} x {both SIMD back ends, 128-bit "
+           "only, SIMD stubbed out, SIMD off + byte-order-neutral scalar code} x {gcc, clang} x {-O0..-O3}: all 128 in the thorough "
+           "tier, a 16-configuration subset covering every pair of switch values in the quick tier; each is compiled from the "
+           "current tree (hook H1 overrides) into a shared object and loaded privately; generated programs = union of the "
+           "C01-C07 generators plus in-between key lengths, default counters, mid-stream changes, invalid and life-cycle calls; "
+           "oracle = transcript (returns, outputs, active schedule images, public fields) of every configuration x available back "
+           "end equals the baseline (gcc -O3, 64-bit, unaligned, both SIMD) for the same back end, and the baseline equals the API "
+           "/ specification model; non-trivial = program processes data; distinct = distinct programs"),
+     assumptions=MODEL_ASSUME + ["position-independent code in shared objects stands for the static build of the same configuration",
+                  "no big-endian or NEON hardware, no 32-bit ABI: the 32-bit-word and byte-order-neutral paths are compiled for, and executed "
+                  "on, the little-endian 64-bit host, which is what the property's quantifier says"],
+     technique="differential property-based testing (rapidcheck) across build configurations loaded side by side in one process",
+     text=("The same generated call programs are executed by every build configuration in one process and must produce identical "
+           "transcripts. The configuration space is enumerated completely in the thorough tier (128 builds); programs are sampled."),
+     note="trusts the H1 override hook to select the compile-time paths the switches name",
+     design_ref="DESIGN.md#c12")
+
 # ----------------------------------------------------------------------------- generic entry points
 def run(pid, tier, seed, replay):
     p = PROPS[pid]
